@@ -60,6 +60,8 @@ def run(ctx):
     conc = os.path.join(ctx.scratch, "conc.ndjson")
     vlib.go_run(ctx, binary, "TestConc", {"VERIF_IN": cin, "VERIF_OUT": conc, "VERIF_CLIENTS": 3 if quick else 4},
                 timeout=1500)
+    if not quick:
+        vlib.race_stage(ctx, "c01", "TestConc", {"VERIF_IN": cin, "VERIF_OUT": conc, "VERIF_CLIENTS": 4})
     ctraces = vlib.split_traces(vlib.read_ndjson(conc))
     acc, rej = vlib.validate_highwater(ctx, "TraceStoreLin", "TraceStoreLin.cfg", ctraces, name="lin", timeout=1500)
     ctx.cov["traces_validated_against_impl"] += len(ctraces)
